@@ -127,6 +127,9 @@ def leafGet (es : List LeafEntry) (key : Nat) : Outcome Unit (Option (ByteArray 
   | .err e => .err e
   | .panic m => .panic m
 
+/-- strictly ascending first components -/
+abbrev Asc (l : List (Nat × Nat)) : Prop := l.Pairwise (fun a b => a.1 < b.1)
+
 /-- all `(separator, leaf page)` pairs of an index, in order -/
 def Index.flat (idx : Index) : List (Nat × Nat) := idx.flatMap (·.2.seps)
 
